@@ -222,14 +222,125 @@ func collectAny(mode int, n int) (args []any, get func() []any) {
 	return nil, nil
 }
 
+// feUsed selects the history of the parser objects the executors use: 0 a fresh object (the zero value),
+// 1 one that has parsed another document before, 2 one whose previous call failed in the middle of a
+// streamed document, 3 one whose previous call failed after a complete first document. The agreement of
+// the front-ends must not depend on it.
+var feUsed int
+
+var (
+	usedOK   = []byte(`{"secret":[1,2,3],"k":"earlier \u00e9 string","n":-12.5e3}`)
+	usedMid  = []byte(`{"secret":[1,2,"unfinished \u00`)
+	usedTail = []byte(`[true,{"x":null}] }`)
+)
+
+func usedDoc() ([]byte, bool) {
+	switch feUsed {
+	case 1:
+		return usedOK, false
+	case 2:
+		return usedMid, true
+	case 3:
+		return usedTail, false
+	}
+	return nil, false
+}
+
+func earlierReader(d []byte) *sim.SimReader {
+	return sim.NewSimReader(d, &sim.Schedule{Style: "every", Every: 3, FailAt: -1})
+}
+
+func newOJParser() *oj.Parser {
+	p := &oj.Parser{}
+	if d, stream := usedDoc(); d != nil {
+		if stream {
+			_, _ = p.ParseReader(earlierReader(d))
+		} else {
+			_, _ = p.Parse(append([]byte(nil), d...))
+		}
+	}
+	return p
+}
+
+func newGenParser() *gen.Parser {
+	p := &gen.Parser{}
+	if d, stream := usedDoc(); d != nil {
+		if stream {
+			_, _ = p.ParseReader(earlierReader(d))
+		} else {
+			_, _ = p.Parse(append([]byte(nil), d...))
+		}
+	}
+	return p
+}
+
+func newSenParser() *sen.Parser {
+	p := &sen.Parser{}
+	p.AddMongoFuncs()
+	if d, stream := usedDoc(); d != nil {
+		if stream {
+			_, _ = p.ParseReader(earlierReader(d))
+		} else {
+			_, _ = p.Parse(append([]byte(nil), d...))
+		}
+	}
+	return p
+}
+
+func newOJTok() *oj.Tokenizer {
+	t := &oj.Tokenizer{}
+	if d, stream := usedDoc(); d != nil {
+		if stream {
+			_ = t.Load(earlierReader(d), newBuilderHandler())
+		} else {
+			_ = t.Parse(append([]byte(nil), d...), newBuilderHandler())
+		}
+	}
+	return t
+}
+
+func newSenTok() *sen.Tokenizer {
+	t := &sen.Tokenizer{}
+	if d, stream := usedDoc(); d != nil {
+		if stream {
+			_ = t.Load(earlierReader(d), newBuilderHandler())
+		} else {
+			_ = t.Parse(append([]byte(nil), d...), newBuilderHandler())
+		}
+	}
+	return t
+}
+
+func newOJValidator() *oj.Validator {
+	v := &oj.Validator{}
+	if d, stream := usedDoc(); d != nil {
+		if stream {
+			_ = v.ValidateReader(earlierReader(d))
+		} else {
+			_ = v.Validate(append([]byte(nil), d...))
+		}
+	}
+	v.OnlyOne = true
+	return v
+}
+
+// returned: in the multi-document modes the documents go to the callback or channel; whatever the call
+// returns besides is part of the outcome too (nothing, for every front-end)
+func returned(docs []any, v any) []any {
+	if v != nil {
+		docs = append(docs, []any{"<returned value>", v})
+	}
+	return docs
+}
+
 func ojParse(b []byte, mode int) *outcome {
 	return run("oj.Parser.Parse", nil, func(o *outcome) {
-		p := &oj.Parser{}
+		p := newOJParser()
 		args, get := collectAny(mode, len(b))
 		v, err := p.Parse(append([]byte(nil), b...), args...)
 		o.Err = err
 		if get != nil {
-			o.Docs = get()
+			o.Docs = returned(get(), v)
 		} else if err == nil {
 			o.Docs = []any{v}
 		}
@@ -239,12 +350,12 @@ func ojParse(b []byte, mode int) *outcome {
 func ojParseReader(b []byte, s *sim.Schedule, mode int) *outcome {
 	rd := sim.NewSimReader(b, s)
 	return run("oj.Parser.ParseReader", rd, func(o *outcome) {
-		p := &oj.Parser{}
+		p := newOJParser()
 		args, get := collectAny(mode, len(b))
 		v, err := p.ParseReader(rd, args...)
 		o.Err = err
 		if get != nil {
-			o.Docs = get()
+			o.Docs = returned(get(), v)
 		} else if err == nil {
 			o.Docs = []any{v}
 		}
@@ -271,7 +382,7 @@ func tokDocs(h *builderHandler, err error, mode int, o *outcome) {
 
 func ojTokParse(b []byte, mode int) *outcome {
 	return run("oj.Tokenizer.Parse+Builder", nil, func(o *outcome) {
-		t := &oj.Tokenizer{}
+		t := newOJTok()
 		t.OnlyOne = mode == modeSingle
 		h := newBuilderHandler()
 		err := t.Parse(append([]byte(nil), b...), h)
@@ -282,7 +393,7 @@ func ojTokParse(b []byte, mode int) *outcome {
 func ojTokLoad(b []byte, s *sim.Schedule, mode int) *outcome {
 	rd := sim.NewSimReader(b, s)
 	return run("oj.Tokenizer.Load+Builder", rd, func(o *outcome) {
-		t := &oj.Tokenizer{}
+		t := newOJTok()
 		t.OnlyOne = mode == modeSingle
 		h := newBuilderHandler()
 		err := t.Load(rd, h)
@@ -314,12 +425,12 @@ func collectGen(mode int, n int) (args []any, get func() []any) {
 
 func genParse(b []byte, mode int) *outcome {
 	return run("gen.Parser.Parse", nil, func(o *outcome) {
-		p := &gen.Parser{}
+		p := newGenParser()
 		args, get := collectGen(mode, len(b))
 		v, err := p.Parse(append([]byte(nil), b...), args...)
 		o.Err = err
 		if get != nil {
-			o.Docs = get()
+			o.Docs = returned(get(), nodeAny(v))
 		} else if err == nil {
 			o.Docs = []any{nodeAny(v)}
 		}
@@ -329,12 +440,12 @@ func genParse(b []byte, mode int) *outcome {
 func genParseReader(b []byte, s *sim.Schedule, mode int) *outcome {
 	rd := sim.NewSimReader(b, s)
 	return run("gen.Parser.ParseReader", rd, func(o *outcome) {
-		p := &gen.Parser{}
+		p := newGenParser()
 		args, get := collectGen(mode, len(b))
 		v, err := p.ParseReader(rd, args...)
 		o.Err = err
 		if get != nil {
-			o.Docs = get()
+			o.Docs = returned(get(), nodeAny(v))
 		} else if err == nil {
 			o.Docs = []any{nodeAny(v)}
 		}
@@ -351,13 +462,12 @@ func nodeAny(n gen.Node) any {
 
 func senParse(b []byte, mode int) *outcome {
 	return run("sen.Parser.Parse", nil, func(o *outcome) {
-		p := &sen.Parser{}
-		p.AddMongoFuncs()
+		p := newSenParser()
 		args, get := collectAny(mode, len(b))
 		v, err := p.Parse(append([]byte(nil), b...), args...)
 		o.Err = err
 		if get != nil {
-			o.Docs = get()
+			o.Docs = returned(get(), v)
 		} else if err == nil {
 			o.Docs = []any{v}
 		}
@@ -367,13 +477,12 @@ func senParse(b []byte, mode int) *outcome {
 func senParseReader(b []byte, s *sim.Schedule, mode int) *outcome {
 	rd := sim.NewSimReader(b, s)
 	return run("sen.Parser.ParseReader", rd, func(o *outcome) {
-		p := &sen.Parser{}
-		p.AddMongoFuncs()
+		p := newSenParser()
 		args, get := collectAny(mode, len(b))
 		v, err := p.ParseReader(rd, args...)
 		o.Err = err
 		if get != nil {
-			o.Docs = get()
+			o.Docs = returned(get(), v)
 		} else if err == nil {
 			o.Docs = []any{v}
 		}
@@ -382,7 +491,7 @@ func senParseReader(b []byte, s *sim.Schedule, mode int) *outcome {
 
 func senTokParse(b []byte, mode int) *outcome {
 	return run("sen.Tokenizer.Parse+Builder", nil, func(o *outcome) {
-		t := &sen.Tokenizer{}
+		t := newSenTok()
 		t.OnlyOne = mode == modeSingle
 		h := newBuilderHandler()
 		err := t.Parse(append([]byte(nil), b...), h)
@@ -393,7 +502,7 @@ func senTokParse(b []byte, mode int) *outcome {
 func senTokLoad(b []byte, s *sim.Schedule, mode int) *outcome {
 	rd := sim.NewSimReader(b, s)
 	return run("sen.Tokenizer.Load+Builder", rd, func(o *outcome) {
-		t := &sen.Tokenizer{}
+		t := newSenTok()
 		t.OnlyOne = mode == modeSingle
 		h := newBuilderHandler()
 		err := t.Load(rd, h)
@@ -403,7 +512,7 @@ func senTokLoad(b []byte, s *sim.Schedule, mode int) *outcome {
 
 func ojValidate(b []byte) *outcome {
 	return run("oj.Validator.Validate", nil, func(o *outcome) {
-		v := &oj.Validator{OnlyOne: true}
+		v := newOJValidator()
 		o.Err = v.Validate(append([]byte(nil), b...))
 	})
 }
@@ -411,7 +520,7 @@ func ojValidate(b []byte) *outcome {
 func ojValidateReader(b []byte, s *sim.Schedule) *outcome {
 	rd := sim.NewSimReader(b, s)
 	return run("oj.Validator.ValidateReader", rd, func(o *outcome) {
-		v := &oj.Validator{OnlyOne: true}
+		v := newOJValidator()
 		o.Err = v.ValidateReader(rd)
 	})
 }
